@@ -177,13 +177,159 @@ fn test_doc(case: &DocCase, ctx: &mut CaseCtx) -> Result<(), String> {
     Ok(())
 }
 
+// ------------------------------------------------------------------------------------------------
+// what the command-line tool reports
+
+#[derive(Debug, Clone, serde::Serialize, serde::Deserialize, PartialEq, Eq, Hash)]
+pub struct CliCase {
+    pub text: String,
+    /// `--only-lint-with` arguments (empty = every rule)
+    pub rules: Vec<String>,
+}
+
+fn cli_bin() -> String {
+    std::env::var("HV_CLI_BIN").unwrap_or_else(|_| "/verif/target/ls/release/harper-cli".into())
+}
+
+fn strip_ansi(s: &str) -> String {
+    let mut out = String::new();
+    let mut it = s.chars().peekable();
+    while let Some(c) = it.next() {
+        if c == '\u{1b}' && it.peek() == Some(&'[') {
+            for d in it.by_ref() {
+                if d.is_ascii_alphabetic() {
+                    break;
+                }
+            }
+        } else {
+            out.push(c);
+        }
+    }
+    out
+}
+
+/// `harper-cli lint file.md [--only-lint-with R]…` prints one label per reported lint, each
+/// carrying the lint's message. The multiset of printed messages must be that of a conflict-free
+/// sub-list of the lints these rules produce.
+pub fn test_cli(c: &CliCase, ctx: &mut CaseCtx) -> Result<(), String> {
+    use harper_core::MergedDictionary;
+    use std::sync::Arc;
+    // in-process: the lints of exactly these rules
+    let mut merged = MergedDictionary::new();
+    merged.add_dictionary(FstDictionary::curated());
+    let merged = Arc::new(merged);
+    let doc = Document::new(&c.text, &Markdown::default(), &merged);
+    let mut group = LintGroup::new_curated(merged.clone(), Dialect::American);
+    if !c.rules.is_empty() {
+        group.set_all_rules_to(Some(false));
+        for r in &c.rules {
+            group.config.set_rule_enabled(r, true);
+        }
+    }
+    let Ok(raw) = crate::core::catch(|| group.lint(&doc)) else {
+        ctx.class("skipped_c01_panic");
+        return Ok(());
+    };
+    let n_chars = c.text.chars().count();
+    if raw.iter().any(|l| l.span.start > l.span.end || l.span.end > n_chars) {
+        ctx.class("skipped_c03_out_of_bounds");
+        return Ok(());
+    }
+    let mut kept = raw.clone();
+    remove_overlaps(&mut kept);
+    check_resolution(&raw, &kept)?;
+    let mut distinct: Vec<&str> = raw.iter().map(|l| l.message.as_str()).collect();
+    distinct.sort();
+    distinct.dedup();
+    // counting messages in the printed report needs them to be unambiguous
+    let ambiguous = distinct.iter().any(|m| m.is_empty() || c.text.contains(m) || distinct.iter().any(|o| o != m && o.contains(m)));
+    if ambiguous {
+        ctx.class("skipped_ambiguous_messages");
+        return Ok(());
+    }
+    let has_overlap = (0..raw.len()).any(|i| (i + 1..raw.len()).any(|j| overlap(&raw[i].span, &raw[j].span)));
+    ctx.class_if(has_overlap, "has_overlap");
+    ctx.class_if(has_overlap && c.rules.len() == 1, "one_rule_overlapping_itself");
+    ctx.class_if(c.rules.is_empty(), "all_rules");
+    if has_overlap {
+        ctx.nontrivial(c);
+    }
+
+    static N: std::sync::atomic::AtomicU64 = std::sync::atomic::AtomicU64::new(0);
+    let dir = std::path::Path::new(crate::core::VERIF_DIR).join("work").join(format!(
+        "sb-c13cli-{}-{}",
+        std::process::id(),
+        N.fetch_add(1, std::sync::atomic::Ordering::Relaxed)
+    ));
+    let _ = std::fs::create_dir_all(&dir);
+    let file = dir.join("input.md");
+    let run = (|| -> std::io::Result<std::process::Output> {
+        std::fs::write(&file, &c.text)?;
+        let mut cmd = std::process::Command::new(cli_bin());
+        cmd.arg("lint").arg(&file);
+        for r in &c.rules {
+            cmd.arg("--only-lint-with").arg(r);
+        }
+        cmd.arg("--user-dict-path").arg(dir.join("no-user-dict.txt"));
+        cmd.arg("--file-dict-path").arg(dir.join("no-file-dicts"));
+        cmd.env("HOME", &dir).env("XDG_CONFIG_HOME", dir.join("config")).env("XDG_DATA_HOME", dir.join("data"));
+        cmd.stdin(std::process::Stdio::null());
+        cmd.output()
+    })();
+    let _ = std::fs::remove_dir_all(&dir);
+    let out = match run {
+        Ok(o) => o,
+        Err(e) => {
+            ctx.infra(format!("cannot run {}: {e}", cli_bin()));
+            return Ok(());
+        }
+    };
+    let printed = strip_ansi(&format!("{}{}", String::from_utf8_lossy(&out.stdout), String::from_utf8_lossy(&out.stderr)));
+    if out.status.code().is_none() || printed.contains("panicked at") {
+        return Err(format!("harper-cli lint died on {:?} with rules {:?}: {}", c.text, c.rules, printed.lines().rev().take(4).collect::<Vec<_>>().join(" / ")));
+    }
+    for m in &distinct {
+        let got = printed.matches(m).count();
+        let want = kept.iter().filter(|l| l.message == *m).count();
+        if got != want {
+            return Err(format!(
+                "harper-cli lint with rules {:?} reports {got} lint(s) saying {m:?} for {:?}; of the {} such lints these rules produce only {want} belong to the conflict-free selection (the reported lints cannot all be fixed in one pass)",
+                c.rules, c.text, raw.iter().filter(|l| l.message == *m).count()
+            ));
+        }
+    }
+    Ok(())
+}
+
+fn cli_strategy() -> BoxedStrategy<CliCase> {
+    const PIECES: &[&str] = &[
+        "I saw the the the cat on the mat.", "It is is is fine to to to to go there.",
+        "\"hello\" “ hello ” ' x '  (  y  )", "This is an  an apple.", "We could of of done it.",
+        "Teh teh teh end.", "A  b   c.", "there fore there fore we go.", "An an an example.",
+    ];
+    const RULES: &[&str] = &["RepeatedWords", "Spaces", "SpellCheck", "AnA", "SentenceCapitalization", "LongSentences", "ModalOf"];
+    let text = prop_oneof![
+        3 => proptest::collection::vec(g::sel_str(PIECES), 1..4).prop_map(|v| v.join(" ")),
+        2 => (g::sel_str(PIECES), g::long_sentence(), g::sel_str(PIECES)).prop_map(|(a, b, c)| format!("{a} {b} {c}")),
+        2 => g::text(),
+    ];
+    let rules = prop_oneof![
+        2 => Just(vec![]),
+        3 => g::sel_str(&["RepeatedWords", "Spaces"]).prop_map(|r| vec![r]),
+        3 => g::sel_str(RULES).prop_map(|r| vec![r]),
+        2 => (g::sel_str(RULES), g::sel_str(RULES)).prop_map(|(a, b)| if a == b { vec![a] } else { vec![a, b] }),
+        1 => g::rule_key().prop_map(|r| vec![r]),
+    ];
+    (text, rules).prop_map(|(text, rules)| CliCase { text, rules }).boxed()
+}
+
 fn spans_strategy(max_coord: usize, max_len: usize) -> BoxedStrategy<Spans> {
     let span = (0..=max_coord, 0..=max_coord).prop_map(|(a, b)| (a.min(b), a.max(b)));
     proptest::collection::vec(span, 0..=max_len).boxed()
 }
 
 pub fn run(run: &mut Run) {
-    run.rule = "span lists: all ordered lists of <=4 spans over coordinates 0..=5 (exhaustive) and random lists of <=12 spans over 0..=12 / <=40 spans over 0..=60; real lint lists of generated plain/Markdown documents with all rules on. Non-trivial = input contains an overlapping pair; distinct by sorted span list / by text.".into();
+    run.rule = "span lists: all ordered lists of <=4 spans over coordinates 0..=5 (exhaustive) and random lists of <=12 spans over 0..=12 / <=40 spans over 0..=60; real lint lists of generated plain/Markdown documents with all rules on; command_line_reports: the real harper-cli binary run on generated Markdown files (repeated words, runs of spaces, long sentences, G-TEXT) with no, one or two --only-lint-with rules — the multiset of messages in its report must equal that of a conflict-free sub-list (validated by the same predicate) of the lints these rules produce in-process. Non-trivial = input contains an overlapping pair; distinct by sorted span list / by text.".into();
     // E2: exhaustive small scope
     let mut spans = vec![];
     for s in 0..=5usize {
@@ -228,11 +374,23 @@ pub fn run(run: &mut Run) {
         test_doc,
     );
     run.require_class("document_lint_lists", "has_overlap", 20);
+
+    let n = run.n(400, 10_000);
+    let shrink = run.max_shrink_iters;
+    run.max_shrink_iters = 120;
+    run.prop("command_line_reports", n, cli_strategy, test_cli);
+    run.max_shrink_iters = shrink;
+    run.require_class("command_line_reports", "has_overlap", (n / 8) as u64);
+    run.require_class("command_line_reports", "one_rule_overlapping_itself", (n / 40) as u64);
 }
 
 pub fn replay(check: &str, case: Value, _run: &mut Run) -> Result<(), String> {
     let mut ctx = CaseCtx::default();
     match check {
+        "command_line_reports" => {
+            let c: CliCase = serde_json::from_value(case).map_err(|e| e.to_string())?;
+            test_cli(&c, &mut ctx)
+        }
         "document_lint_lists" => {
             let c: DocCase = serde_json::from_value(case).map_err(|e| e.to_string())?;
             test_doc(&c, &mut ctx)
